@@ -11,6 +11,7 @@ import (
 	"runtime/debug"
 	"sort"
 	"strings"
+	"sync"
 	"time"
 
 	pb "github.com/ipfs/boxo/ipld/unixfs/pb"
@@ -236,6 +237,27 @@ func (c c11Case) run(viol func(sig, detail string), r *core.Run) {
 	case "plain", "auto":
 		s = store.New()
 		root, sz, err = gen.OursDir(s, gen.Leaves(s, c.Names))
+	case "plain-inline", "sharded-inline":
+		// every second entry is linked by an identity-multihash CID (the block
+		// travels inside the link, `ipfs add --inline`); its Tsize counts like any
+		// other
+		s = store.New()
+		es := gen.Leaves(s, c.Names)
+		for i := range es {
+			if i%2 == 0 {
+				if b, ok := s.Raw(es[i].Cid); ok {
+					if ic, ierr := (cid.Prefix{Version: 1, Codec: es[i].Cid.Prefix().Codec, MhType: 0x00, MhLength: -1}).Sum(b); ierr == nil {
+						s.Put(ic, b)
+						es[i].Cid = ic
+					}
+				}
+			}
+		}
+		if c.Kind == "sharded-inline" {
+			root, sz, err = gen.OursSharded(s, c.Fanout, es)
+		} else {
+			root, sz, err = gen.OursDir(s, es)
+		}
 	case "dir-of-files":
 		// entries are files built by the file builder with the size it returned
 		s = store.New()
@@ -345,6 +367,56 @@ type c11Build struct {
 	run  func(s *store.Store, ls *ipld.LinkSystem) (ipld.Link, uint64, error)
 	// content: for file builds, the bytes the file must read back to
 	content []byte
+}
+
+func init() { Registry["BUILDRACE"] = runBuildRace }
+
+// runBuildRace is the free-running companion of concurrentBuilds, meant to be
+// built with -race (run.sh does that and hands the log to the checks): the same
+// pairs of builds on real goroutines, through one shared LinkSystem and
+// through two separate ones (builds that share nothing the caller gave them).
+// Hand-offs of the cooperative scheduler are happens-before edges that blind
+// the detector, and state the builders reach through local variables (a
+// package-level hasher assigned to a local) is not a hooked access.
+func runBuildRace(r *core.Run) {
+	// the detector works on happens-before, not on luck: a few repetitions
+	// of each pair in each sharing mode are enough
+	reps := 6
+	if !r.Quick() {
+		reps = 60
+	}
+	for _, pr := range c11Pairs() {
+		for i := 0; i < reps; i++ {
+			shared := store.New()
+			stores := [2]*store.Store{shared, shared}
+			if i%2 == 1 {
+				stores = [2]*store.Store{store.New(), store.New()}
+			}
+			lss := [2]*ipld.LinkSystem{stores[0].LinkSystem(), stores[1].LinkSystem()}
+			if i%2 == 0 {
+				lss[1] = lss[0]
+			}
+			var wg sync.WaitGroup
+			start := make(chan struct{})
+			for k := 0; k < 2; k++ {
+				k := k
+				wg.Add(1)
+				go func() {
+					defer wg.Done()
+					defer func() { recover() }()
+					<-start
+					pr[k].run(stores[k], lss[k])
+				}()
+			}
+			close(start)
+			wg.Wait()
+			r.Evaluations.Add(1)
+		}
+		r.Distinct(pr[0].name + " || " + pr[1].name)
+	}
+	r.States.Add(1)
+	r.Transitions.Add(1)
+	r.Sample("free-running repetitions of the concurrent-build pairs")
 }
 
 func c11Pairs() [][2]c11Build {
@@ -476,6 +548,16 @@ func c11Concurrent(r *core.Run) { concurrentBuilds(r, func([2]c11Build) bool { r
 func concurrentBuilds(r *core.Run, want func(pr [2]c11Build) bool) {
 	schedCapRun = r.Cap
 	noteDegraded(r)
+	// auxiliary evidence: the free-running -race pass over the same pairs
+	if b, err := os.ReadFile(os.Getenv("VERIF_RACE_LOG")); err == nil {
+		reports := strings.Count(string(b), "WARNING: DATA RACE") + strings.Count(string(b), "fatal error: concurrent map")
+		r.Set("aux_race_pass", map[string]any{"reports": reports, "log_bytes": len(b)})
+		if reports > 0 {
+			r.Violate("race-detector-report concurrent-builds", fmt.Sprintf("two builds side by side (one shared LinkSystem / nothing shared): the free-running -race pass printed %d report(s): %s", reports, raceSummary(string(b))), nil)
+		}
+	} else {
+		r.Set("aux_race_pass", "not run")
+	}
 	var execs int64
 	for _, pr := range c11Pairs() {
 		pr := pr
@@ -675,6 +757,9 @@ func runC11(r *core.Run) {
 		}
 		if mask > 0 && mask < 64 {
 			cases = append(cases, c11Case{Kind: "plain-dup-names", Names: names})
+		}
+		if mask > 0 && mask < 64 {
+			cases = append(cases, c11Case{Kind: "plain-inline", Names: names}, c11Case{Kind: "sharded-inline", Fanout: 8, Names: names})
 		}
 		if mask > 2 && mask < 256 {
 			cases = append(cases, c11Case{Kind: "plain-shared-targets", Names: names}, c11Case{Kind: "sharded-shared-targets", Fanout: 8, Names: names})
